@@ -930,6 +930,12 @@ class ExprMixin:
             tr = st.facts.get(("truthy", t[1]))
             if tr is True:
                 return True
+            # a value the path has compared by order with a number is not None (None < 3 raises TypeError)
+            for f in st.facts:
+                if isinstance(f, tuple) and len(f) == 4 and f[0] == "cmp" and f[1] in ("<", "<=", ">", ">=") and (
+                        (f[2] == t[1] and is_const(f[3]) and isinstance(f[3][1], (int, float)) and not isinstance(f[3][1], bool)) or
+                        (f[3] == t[1] and is_const(f[2]) and isinstance(f[2][1], (int, float)) and not isinstance(f[2][1], bool))):
+                    return True
             return None
         if k == "boolop":
             vals = [self.truth(x, st) for x in t[2]]
